@@ -150,10 +150,15 @@ impl<T: BitRead> PackedRead for T {
         lower_bound: i64,
         upper_bound: i64,
     ) -> Result<i64, Error> {
-        let range = upper_bound - lower_bound;
-        if range > 0 {
-            Ok(lower_bound
-                + self.read_non_negative_binary_integer(None, Some(range as u64))? as i64)
+        if upper_bound > lower_bound {
+            // exact even if the range exceeds i64::MAX
+            let range = upper_bound.wrapping_sub(lower_bound) as u64;
+            let offset = self.read_non_negative_binary_integer(None, Some(range))?;
+            if offset > range {
+                Err(ErrorKind::ValueExceedsMaxInt.into())
+            } else {
+                Ok(lower_bound.wrapping_add(offset as i64))
+            }
         } else {
             Ok(lower_bound)
         }
@@ -464,17 +469,16 @@ impl<T: BitWrite> PackedWrite for T {
         upper_bound: i64,
         value: i64,
     ) -> Result<(), Error> {
-        let range = upper_bound - lower_bound;
-        if range > 0 {
-            if value < lower_bound || value > upper_bound {
-                Err(ErrorKind::ValueNotInRange(value, lower_bound, upper_bound).into())
-            } else {
-                self.write_non_negative_binary_integer(
-                    None,
-                    Some(range as u64),
-                    (value - lower_bound) as u64,
-                )
-            }
+        if value < lower_bound || value > upper_bound {
+            Err(ErrorKind::ValueNotInRange(value, lower_bound, upper_bound).into())
+        } else if upper_bound > lower_bound {
+            // exact even if the range exceeds i64::MAX
+            let range = upper_bound.wrapping_sub(lower_bound) as u64;
+            self.write_non_negative_binary_integer(
+                None,
+                Some(range),
+                value.wrapping_sub(lower_bound) as u64,
+            )
         } else {
             Ok(())
         }
